@@ -318,7 +318,7 @@ def raw_text(P, rep):
     rep.floor("functions of the line pipeline", len(scope), 6)
 
 
-def prefilters(P, g, rep):
+def prefilters(P, g, rep, prefix="C14.prefilter"):
     """Layering: what is comment and what is quoted text is decided by the grammar alone.  Any function that sees the raw line before
     document::line and can turn it away (a bool whose false edge skips the parser) must take the characters it judges from the grammar's
     own code_part rule, and that rule must stop at comment() and step over string() and ch()."""
@@ -353,14 +353,14 @@ def prefilters(P, g, rep):
                             locs, consts, calls, places = MU.backward_slice(gb, t2["args"][:1])
                             if not any("code_part" in MU.callee_names(c)[1] for c in calls):
                                 loops_ok = False
-                rep.ob("C14.prefilter|%s" % gk[0], okv and loops_ok,
+                rep.ob("%s|%s" % (prefix, gk[0]), okv and loops_ok,
                        "%s, which can turn a line away before the grammar sees it, judges only the characters document::code_part hands it (comments and quoted text excluded by the grammar's own rules)" % gk[0].split("::")[-1]
                        if okv and loops_ok else
                        "%s can turn a line away before the grammar sees it and does not take the characters it judges from document::code_part: text inside comments or strings may decide whether a line assembles" % gk[0])
     rep.count("pre-grammar filters", nfilters)
     r = g.rules.get("code_part")
     if nfilters and r is None:
-        rep.unprovable("C14.prefilter|code_part-grammar", "grammar rule code_part not found")
+        rep.unprovable("%s|code_part-grammar" % prefix, "grammar rule code_part not found")
     elif r is not None:
         node = top_seq(r["expr"])
         body = node[1][0][1] if node[0] == "seq" and node[1] else None
@@ -382,5 +382,5 @@ def prefilters(P, g, rep):
                     names.append("<other>")
             ok = sorted(names[:-1]) == ["ch", "string"] and names[-1:] == ["<any-but-comment>"]
             why = str(names)
-        rep.ob("C14.prefilter|code_part-grammar", ok, "code_part steps over string() and ch() whole and stops in front of comment()" if ok else
+        rep.ob("%s|code_part-grammar" % prefix, ok, "code_part steps over string() and ch() whole and stops in front of comment()" if ok else
                "code_part does not have the shape (string() / ch() / !comment() [_])* : %s" % why)
